@@ -264,9 +264,9 @@ def concurrent_calls(rng, res, base):
     kvalue._K.cur = keys
     try:
         d = kvalue.build_tawazi(prog, {})
+        d_serial = kvalue.build_tawazi(prog, {})
     except BaseException:  # noqa: BLE001
         return
-    ref_f = kvalue.build_plain(prog)
     nthr = 4
     results = {}
 
@@ -284,10 +284,10 @@ def concurrent_calls(rng, res, base):
     res.evaluations += 1
     for i, outs in results.items():
         for a, got in outs:
-            exp = outcome(lambda: ref_f(a))
-            if exp[0] == "raise" and tz.failing_node_of(exp[1]) is None:
-                continue
-            okv = (got[0] == exp[0]) and (got[0] == "raise" or same(got[1], exp[1]))
+            # reference: a DAG of the same function called by one thread only (whether that equals the
+            # plain function is C01/C10/C20's question, decided by K-value)
+            exp = outcome(lambda: d_serial(a))
+            okv = (got[0] == exp[0]) and ((got[0] == "raise" and type(got[1]) is type(exp[1])) or (got[0] != "raise" and same(got[1], exp[1])))
             if not okv:
                 res.hit("C16", "monitor", "thread %d called the shared DAG with %r and got %r; the result for its own argument is %r" % (i, a, got[1], exp[1]), dict(base, kind="monitor", prog=prog))
     if any(th.is_alive() for th in ths):
@@ -399,18 +399,22 @@ def run_async(pid, tier, seed, res, only=None):
             res.hit("C17", "monitor", "DAG executed %s, AsyncDAG executed %s" % (xs, xa), dict(base, kind="monitor"))
         # concurrent awaits with distinct arguments in one loop
         if rng.random() < 0.5 and prog["params"] and prog["params"][0]["default"] is None:
-            ref_f = kvalue.build_plain(prog)
             argsets = [[Const(300 + 7 * k + j, (k + j) % 2 == 0) for j in range(len(args))] for k in range(3)]
 
             async def many():
                 return await asyncio.gather(*[da(*a) for a in argsets], return_exceptions=True)
             got = asyncio.run(many())
             for a, g in zip(argsets, got):
-                exp = outcome(lambda: ref_f(*a))
+                # C17 compares the concurrent await with what the same function gives on its own as a
+                # (synchronous) DAG; whether that equals the plain function is C01/C10/C20's question (K-value),
+                # e.g. finding F13 raises in both flavours
+                exp = outcome(lambda: ds(*a))
                 if exp[0] == "raise":
+                    if not isinstance(g, BaseException) or type(g) is not type(exp[1]):
+                        res.hit("C17", "monitor", "a concurrent await with arguments %r gave %r; the DAG of the same function raises %r" % (a, g, exp[1]), dict(base, kind="monitor", variant="gather"))
                     continue
                 if isinstance(g, BaseException) or not same(g, exp[1]):
-                    res.hit("C17", "monitor", "a concurrent await with arguments %r returned %r; its own result is %r" % (a, g, exp[1]), dict(base, kind="monitor"))
+                    res.hit("C17", "monitor", "a concurrent await with arguments %r returned %r; the DAG of the same function returns %r" % (a, g, exp[1]), dict(base, kind="monitor", variant="gather"))
             dist["gathered"] += 1
     # the event loop keeps serving other coroutines while async-thread nodes run
     for k in range(4 if tier == "quick" else 20):
